@@ -52,7 +52,7 @@ def build_wall_shim():
     if not os.path.exists(so):
         with open(src, "w") as f:
             f.write(WALL_SHIM_C)
-        util.sh(["gcc", "-O2", "-shared", "-fPIC", "-o", so, src], timeout=120)
+        util.sh(["gcc", "-O2", "-shared", "-fPIC", "-o", so, src], timeout=600)
     return so
 
 
